@@ -3,9 +3,11 @@
 #ifndef TETL_COMPLEX_TAN_HPP
 #define TETL_COMPLEX_TAN_HPP
 
+#include <etl/_cmath/sin.hpp>
 #include <etl/_complex/complex.hpp>
 #include <etl/_complex/cos.hpp>
 #include <etl/_complex/sin.hpp>
+#include <etl/_limits/numeric_limits.hpp>
 
 namespace etl {
 
@@ -13,6 +15,12 @@ namespace etl {
 template <typename T>
 [[nodiscard]] constexpr auto tan(complex<T> const& z) -> complex<T>
 {
+    // Same overflow as in tanh once |Im z| is large: tan(z) = -i tanh(iz) -> (+-0, +-1)
+    auto const y = z.imag();
+    if (y > T(etl::numeric_limits<T>::digits) or y < -T(etl::numeric_limits<T>::digits)) {
+        auto const s = etl::sin(T(2) * z.real());
+        return {s < T(0) ? -T(0) : T(0), y < T(0) ? T(-1) : T(1)};
+    }
     return etl::sin(z) / etl::cos(z);
 }
 
